@@ -4,7 +4,10 @@ is_memoized() answers True, the runner says 'memoized elsewhere' and never write
 although the disk is healthy again.   exit 1 = violated ('memoization also recovers')."""
 import sys, os, tempfile, logging
 sys.dont_write_bytecode = True
-import os; os.environ.setdefault("PYVC_REPO", "/repo"); sys.path.insert(0, os.path.join(os.path.dirname(os.path.abspath(__file__)), "..")); sys.path.insert(0, "/repo")
+import os
+if len(sys.argv) > 1:
+    os.environ["PYVC_REPO"] = sys.argv[1]
+os.environ.setdefault("PYVC_REPO", "/repo"); sys.path.insert(0, os.path.join(os.path.dirname(os.path.abspath(__file__)), "..")); sys.path.insert(0, os.environ["PYVC_REPO"])
 from contracts.crash_replay import FaultFS
 import numpy as np
 import twosigma.memento as m
